@@ -4,6 +4,7 @@ from __future__ import annotations
 
 import fcntl
 import json
+import math
 import os
 import random
 import re
@@ -489,4 +490,6 @@ def rel_close(a: float, b: float, rtol: float, atol: float = 0.0) -> bool:
         return True
     if a == b:
         return True
+    if a in (math.inf, -math.inf) or b in (math.inf, -math.inf):
+        return False  # (inf <= rtol * inf would accept an infinite value for any finite one)
     return abs(a - b) <= atol + rtol * max(abs(a), abs(b))
